@@ -1,0 +1,227 @@
+//go:build verif
+
+// Contracts for the deductive verifier in /verif (govc): query rewriting
+// preserves meaning (C05). Comment-only file, compiled only with -tags verif.
+
+package query
+
+// ---------------------------------------------------------------------------
+// Meaning of a query: sem(q, d) - "query q selects document d" (d ranges over
+// the documents of an arbitrary, fixed corpus). sem is an uninterpreted
+// function of the node; the state axioms tie it to the node's fields, for
+// every node that exists in the state they are instantiated for (entry, the
+// nodes a callee built, return). Query trees are treated as immutable once
+// built: every function below is proved to write no memory that existed before
+// the call.
+// ---------------------------------------------------------------------------
+//@ abstract func sem(q Q, d int) bool
+
+//@ state_axiom semConst: forall q Q, d int :: typeis(q, "*Const") && allocated(q) ==> sem(q, d) == as(q, "*Const").Value
+//@ state_axiom semNot: forall q Q, d int :: typeis(q, "*Not") && allocated(q) ==> sem(q, d) == !sem(as(q, "*Not").Child, d)
+//@ state_axiom semAnd: forall q Q, d int :: typeis(q, "*And") && allocated(q) ==> sem(q, d) == (forall k int :: 0 <= k && k < len(as(q, "*And").Children) ==> sem(as(q, "*And").Children[k], d))
+//@ state_axiom semOr: forall q Q, d int :: typeis(q, "*Or") && allocated(q) ==> sem(q, d) == (exists k int :: 0 <= k && k < len(as(q, "*Or").Children) && sem(as(q, "*Or").Children[k], d))
+// a boost changes the score of what its child selects, not what is selected
+//@ state_axiom semBoost: forall q Q, d int :: typeis(q, "*Boost") && allocated(q) ==> sem(q, d) == sem(as(q, "*Boost").Child, d)
+// a type node selects documents as some function of its kind and of what its
+// child selects (type:repo - every document of a repository in which the child
+// selects one): equal kinds over children of equal meaning select the same
+// documents, and a child that selects everything / nothing makes the node
+// select everything / nothing.
+//@ state_axiom semTypeCongr: forall p, q Q, d int :: typeis(p, "*Type") && typeis(q, "*Type") && allocated(p) && allocated(q) && as(p, "*Type").Type == as(q, "*Type").Type && (forall e int :: sem(as(p, "*Type").Child, e) == sem(as(q, "*Type").Child, e)) ==> sem(p, d) == sem(q, d)
+//@ state_axiom semTypeAll: forall q Q, d int :: typeis(q, "*Type") && allocated(q) && (forall e int :: sem(as(q, "*Type").Child, e)) ==> sem(q, d)
+//@ state_axiom semTypeNone: forall q Q, d int :: typeis(q, "*Type") && allocated(q) && (forall e int :: !sem(as(q, "*Type").Child, e)) ==> !sem(q, d)
+
+// Well-formed trees (assumed for every tree, input or built): a child slot never
+// holds a typed nil pointer (a nil *T stored in a Q) - such a tree panics as
+// soon as it is printed or evaluated. The results of the functions below are
+// proved not to be typed nils themselves.
+//@ state_axiom treeNoTypedNil1: forall q Q :: typeis(q, "*Not") && allocated(q) ==> notypednil(as(q, "*Not").Child)
+//@ state_axiom treeNoTypedNil2: forall q Q :: typeis(q, "*Type") && allocated(q) ==> notypednil(as(q, "*Type").Child)
+//@ state_axiom treeNoTypedNil3: forall q Q :: typeis(q, "*Boost") && allocated(q) ==> notypednil(as(q, "*Boost").Child)
+//@ state_axiom treeNoTypedNil4: forall q Q, k int :: typeis(q, "*And") && allocated(q) && 0 <= k && k < len(as(q, "*And").Children) ==> notypednil(as(q, "*And").Children[k])
+//@ state_axiom treeNoTypedNil5: forall q Q, k int :: typeis(q, "*Or") && allocated(q) && 0 <= k && k < len(as(q, "*Or").Children) ==> notypednil(as(q, "*Or").Children[k])
+
+// Facts about atoms that the folding of degenerate atoms relies on (assumed:
+// they restate what index.newMatchTree builds for these atoms): an empty
+// substring, the empty-match regexp and the empty non-exact branch pattern
+// select every document; empty repository / file-name sets and empty bitmaps
+// select none.
+//@ abstract func bmEmpty(b *github.com/RoaringBitmap/roaring/v2.Bitmap) bool
+//@ state_axiom semSubstringEmpty: forall q Q, d int :: typeis(q, "*Substring") && allocated(q) && len(as(q, "*Substring").Pattern) == 0 ==> sem(q, d)
+//@ state_axiom semRegexpEmpty: forall q Q, d int :: typeis(q, "*Regexp") && allocated(q) && as(q, "*Regexp").Regexp.Op == 2 ==> sem(q, d)
+//@ state_axiom semBranchEmpty: forall q Q, d int :: typeis(q, "*Branch") && allocated(q) && len(as(q, "*Branch").Pattern) == 0 && !as(q, "*Branch").Exact ==> sem(q, d)
+//@ state_axiom semBranchesReposEmpty: forall q Q, d int :: typeis(q, "*BranchesRepos") && allocated(q) && (forall k int :: 0 <= k && k < len(as(q, "*BranchesRepos").List) ==> bmEmpty(as(q, "*BranchesRepos").List[k].Repos)) ==> !sem(q, d)
+//@ state_axiom semRepoIDsEmpty: forall q Q, d int :: typeis(q, "*RepoIDs") && allocated(q) && bmEmpty(as(q, "*RepoIDs").Repos) ==> !sem(q, d)
+//@ state_axiom semRepoSetEmpty: forall q Q, d int :: typeis(q, "*RepoSet") && allocated(q) && len(as(q, "*RepoSet").Set) == 0 ==> !sem(q, d)
+//@ state_axiom semFileNameSetEmpty: forall q Q, d int :: typeis(q, "*FileNameSet") && allocated(q) && len(as(q, "*FileNameSet").Set) == 0 ==> !sem(q, d)
+
+//@ func roaring.(*Bitmap).IsEmpty
+//@   trusted
+//@   flag only_for=query.
+//@   ensures result == bmEmpty(rb)
+//@   assigns nothing
+
+// ---------------------------------------------------------------------------
+// Constant folding
+// ---------------------------------------------------------------------------
+
+//@ func query.invertConst
+//@   may_panic
+//@   requires notypednil(q)
+//@   ensures notypednil(result)
+//@   ensures typeis(q, "*Const") ==> typeis(result, "*Const") && (forall d int :: sem(result, d) == !sem(q, d))
+//@   ensures !typeis(q, "*Const") ==> result == q
+//@   assigns nothing
+
+// The callback of Map / mapQueryList as the rewrites below use it: a rewrite
+// that preserves meaning and writes nothing that existed before.
+//@ func query.Map.f(q)
+//@   requires notypednil(q)
+//@   ensures notypednil(result)
+//@   ensures forall d int :: sem(result, d) == sem(q, d)
+//@   assigns nothing
+//@ func query.mapQueryList.f(q)
+//@   requires notypednil(q)
+//@   ensures notypednil(result)
+//@   ensures forall d int :: sem(result, d) == sem(q, d)
+//@   assigns nothing
+
+//@ func query.Map
+//@   may_panic
+//@   flag split_returns=1
+//@   requires notypednil(q)
+//@   ensures notypednil(result)
+//@   ensures forall d int :: sem(result, d) == sem(q, d)
+//@   assigns nothing
+
+//@ func query.mapQueryList
+//@   may_panic
+//@   requires forall k int :: 0 <= k && k < len(qs) ==> notypednil(qs[k])
+//@   loop 1:
+//@     invariant fresh(neg) && len(neg) == len(qs)
+//@     invariant forall k int :: 0 <= k && k <= $i ==> notypednil(neg[k])
+//@     invariant forall k, d int :: 0 <= k && k <= $i ==> sem(neg[k], d) == sem(qs[k], d)
+//@     decreases len(qs) - $i
+//@     assigns neg[*]
+//@   ensures len(result) == len(qs) && fresh(result)
+//@   ensures forall k int :: 0 <= k && k < len(qs) ==> notypednil(result[k])
+//@   ensures forall k, d int :: 0 <= k && k < len(qs) ==> sem(result[k], d) == sem(qs[k], d)
+//@   assigns nothing
+
+//@ func query.evalConstants
+//@   may_panic
+//@   requires notypednil(q)
+//@   ensures notypednil(result)
+//@   loop 1:
+//@     invariant forall k int :: 0 <= k && k <= $i ==> bmEmpty(s.List[k].Repos)
+//@     decreases len(s.List) - $i
+//@   ensures forall d int :: sem(result, d) == sem(q, d)
+//@   assigns nothing
+
+// evalAndOrConstants: the result means the conjunction (q an And) or the
+// disjunction (otherwise) of the children. The child list is mapped into a new
+// array which is then filtered in place: kept elements are elements of the
+// mapped list, dropped ones are the neutral constant.
+//@ func query.evalAndOrConstants
+//@   may_panic
+//@   requires forall k int :: 0 <= k && k < len(children) ==> notypednil(children[k])
+//@   ensures notypednil(result)
+//@   loop 1:
+//@     invariant len(children) == len(old(children)) && fresh(children)
+//@     invariant base(newCH) == base(children) && offset(newCH) == offset(children) && cap(newCH) == cap(children) && 0 <= len(newCH) && len(newCH) <= $i + 1
+//@     invariant forall k int :: $i < k && k < len(children) ==> children[k] == before(1, children[k])
+//@     invariant forall a int :: 0 <= a && a < len(newCH) ==> notypednil(newCH[a]) && (exists m int :: a <= m && m <= $i && newCH[a] == before(1, children[m]))
+//@     invariant forall m int :: 0 <= m && m <= $i ==> (exists a int :: 0 <= a && a < len(newCH) && newCH[a] == before(1, children[m])) || (forall d int :: sem(before(1, children[m]), d) == isAnd)
+//@     decreases len(children) - $i
+//@     assigns children[*]
+//@   ensures typeis(q, "*And") ==> (forall d int :: sem(result, d) == (forall k int :: 0 <= k && k < len(children) ==> sem(old(children[k]), d)))
+//@   ensures !typeis(q, "*And") ==> (forall d int :: sem(result, d) == (exists k int :: 0 <= k && k < len(children) && sem(old(children[k]), d)))
+//@   assigns nothing
+
+// ---------------------------------------------------------------------------
+// Flattening
+// ---------------------------------------------------------------------------
+
+//@ func query.queryChildren
+//@   may_panic
+//@   ensures typeis(q, "*And") ==> result == as(q, "*And").Children
+//@   ensures typeis(q, "*Or") ==> result == as(q, "*Or").Children
+//@   ensures !typeis(q, "*And") && !typeis(q, "*Or") ==> len(result) == 0 && result == nil
+//@   ensures forall k int :: 0 <= k && k < len(result) ==> notypednil(result[k])
+//@   ensures typeis(q, "*And") ==> (forall d int :: sem(q, d) == (forall k int :: 0 <= k && k < len(result) ==> sem(result[k], d)))
+//@   ensures typeis(q, "*Or") ==> (forall d int :: sem(q, d) == (exists k int :: 0 <= k && k < len(result) && sem(result[k], d)))
+//@   assigns nothing
+
+// reflect.TypeOf (assumed): a function of the dynamic type alone, and different
+// dynamic types have different descriptors.
+//@ abstract func rtypeOf(tag int) reflect.Type
+//@ axiom rtypeInjective: forall a, b int :: rtypeOf(a) == rtypeOf(b) ==> a == b
+//@ func reflect.TypeOf
+//@   trusted
+//@   flag only_for=query.
+//@   ensures result == rtypeOf(tagof(i))
+//@   assigns nothing
+
+// flatten: (and (and x y) z) => (and x y z), the same for "or"; a one-child
+// and/or becomes the child. The result selects what q selects.
+//@ func query.flatten
+//@   may_panic
+//@   flag split_returns=1
+//@   requires notypednil(q)
+//@   ensures notypednil(result0)
+//@   ensures forall d int :: sem(result0, d) == sem(q, d)
+//@   assigns nothing
+
+// flattenAndOr: the flattened list means, as a conjunction (typ an And) or as a
+// disjunction (typ an Or), what the child list means (stated in both
+// directions, element by element).
+//@ func query.flattenAndOr
+//@   may_panic
+//@   requires typeis(typ, "*And") || typeis(typ, "*Or")
+//@   requires forall k int :: 0 <= k && k < len(children) ==> notypednil(children[k])
+//@   loop 1:
+//@     invariant flat == nil || freshsince(1, flat)
+//@     invariant forall a int :: 0 <= a && a < len(flat) ==> notypednil(flat[a])
+//@     invariant typeis(typ, "*And") ==> (forall d, a int :: 0 <= a && a < len(flat) && (forall m int :: 0 <= m && m <= $i ==> sem(children[m], d)) ==> sem(flat[a], d))
+//@     invariant typeis(typ, "*And") ==> (forall d, m int :: 0 <= m && m <= $i && (forall a int :: 0 <= a && a < len(flat) ==> sem(flat[a], d)) ==> sem(children[m], d))
+//@     invariant typeis(typ, "*Or") ==> (forall d, a int :: 0 <= a && a < len(flat) && sem(flat[a], d) ==> (exists m int :: 0 <= m && m <= $i && sem(children[m], d)))
+//@     invariant typeis(typ, "*Or") ==> (forall d, m int :: 0 <= m && m <= $i && sem(children[m], d) ==> (exists a int :: 0 <= a && a < len(flat) && sem(flat[a], d)))
+//@     decreases len(children) - $i
+//@     assigns flat[*]
+//@   ensures forall a int :: 0 <= a && a < len(result0) ==> notypednil(result0[a])
+//@   ensures typeis(typ, "*And") ==> (forall d, a int :: 0 <= a && a < len(result0) && (forall m int :: 0 <= m && m < len(children) ==> sem(children[m], d)) ==> sem(result0[a], d))
+//@   ensures typeis(typ, "*And") ==> (forall d, m int :: 0 <= m && m < len(children) && (forall a int :: 0 <= a && a < len(result0) ==> sem(result0[a], d)) ==> sem(children[m], d))
+//@   ensures typeis(typ, "*Or") ==> (forall d, a int :: 0 <= a && a < len(result0) && sem(result0[a], d) ==> (exists m int :: 0 <= m && m < len(children) && sem(children[m], d)))
+//@   ensures typeis(typ, "*Or") ==> (forall d, m int :: 0 <= m && m < len(children) && sem(children[m], d) ==> (exists a int :: 0 <= a && a < len(result0) && sem(result0[a], d)))
+//@   ensures result0 == nil || fresh(result0)
+//@   assigns nothing
+
+// Simplify: constant folding, then flattening until nothing changes.
+//@ func query.Simplify
+//@   may_panic
+//@   requires notypednil(q)
+//@   loop 1:
+//@     invariant notypednil(q) && (forall d int :: sem(q, d) == sem(old(q), d))
+//@   ensures notypednil(result)
+//@   ensures forall d int :: sem(result, d) == sem(q, d)
+//@   assigns nothing
+
+// ---------------------------------------------------------------------------
+// File-name / content expansion: a substring or regexp atom that is scoped to
+// neither or to both of file name and content becomes (or file-name-only
+// content-only) over two copies that differ from the original in nothing but
+// the scope - this is what gives the unscoped atom its meaning (the evaluator
+// only ever sees scoped atoms). Every other node is returned as it is.
+// ---------------------------------------------------------------------------
+//@ func query.ExpandFileContent
+//@   may_panic
+//@   let S = as(q, "*Substring")
+//@   let R = as(q, "*Regexp")
+//@   ensures typeis(q, "*Substring") && S.FileName == S.Content ==> typeis(result, "*Or") && fresh(result) && len(as(result, "*Or").Children) == 2 && typeis(as(result, "*Or").Children[0], "*Substring") && typeis(as(result, "*Or").Children[1], "*Substring") && fresh(as(result, "*Or").Children[0]) && fresh(as(result, "*Or").Children[1])
+//@   ensures typeis(q, "*Substring") && S.FileName == S.Content ==> as(as(result, "*Or").Children[0], "*Substring").Pattern == S.Pattern && as(as(result, "*Or").Children[0], "*Substring").CaseSensitive == S.CaseSensitive && as(as(result, "*Or").Children[0], "*Substring").FileName && !as(as(result, "*Or").Children[0], "*Substring").Content
+//@   ensures typeis(q, "*Substring") && S.FileName == S.Content ==> as(as(result, "*Or").Children[1], "*Substring").Pattern == S.Pattern && as(as(result, "*Or").Children[1], "*Substring").CaseSensitive == S.CaseSensitive && !as(as(result, "*Or").Children[1], "*Substring").FileName && as(as(result, "*Or").Children[1], "*Substring").Content
+//@   ensures typeis(q, "*Regexp") && R.FileName == R.Content ==> typeis(result, "*Or") && fresh(result) && len(as(result, "*Or").Children) == 2 && typeis(as(result, "*Or").Children[0], "*Regexp") && typeis(as(result, "*Or").Children[1], "*Regexp") && fresh(as(result, "*Or").Children[0]) && fresh(as(result, "*Or").Children[1])
+//@   ensures typeis(q, "*Regexp") && R.FileName == R.Content ==> as(as(result, "*Or").Children[0], "*Regexp").Regexp == R.Regexp && as(as(result, "*Or").Children[0], "*Regexp").CaseSensitive == R.CaseSensitive && as(as(result, "*Or").Children[0], "*Regexp").FileName && !as(as(result, "*Or").Children[0], "*Regexp").Content
+//@   ensures typeis(q, "*Regexp") && R.FileName == R.Content ==> as(as(result, "*Or").Children[1], "*Regexp").Regexp == R.Regexp && as(as(result, "*Or").Children[1], "*Regexp").CaseSensitive == R.CaseSensitive && !as(as(result, "*Or").Children[1], "*Regexp").FileName && as(as(result, "*Or").Children[1], "*Regexp").Content
+//@   ensures !(typeis(q, "*Substring") && S.FileName == S.Content) && !(typeis(q, "*Regexp") && R.FileName == R.Content) ==> result == q
+//@   assigns nothing
